@@ -512,12 +512,27 @@ func ruleMergeOrder(c *Ctx, r *Repo, cp *packages.Package) {
 			continue
 		}
 		d := newDT(info)
+		// small private helpers (a nil-to-empty normaliser, say) are followed
+		d.callInline = map[*types.Func]*ast.FuncDecl{}
+		for fn, g := range pkgUnexported(cp) {
+			if g != fd && fn.Name() != "mergeConfigs" && fn.Name() != "mergeStringMaps" {
+				d.callInline[fn] = g
+			}
+		}
+		d.hoistCalls = true
 		start := seedEnv(d, fd)
 		if v, ok := rs.Value.(*ast.Ident); ok {
 			start.env[info.Defs[v]] = "ELEM"
 		}
+		if k, ok := rs.Key.(*ast.Ident); ok && k.Name != "_" && info.Defs[k] != nil {
+			start.env[info.Defs[k]] = "KEY"
+		}
 		d.paths = nil
 		d.stmts(start, rs.Body.List, func(p *dtPath) { d.finish(p, "end") })
+		for _, p := range d.paths {
+			// the element addressed through the loop's own key is the element
+			p.rewrite(func(x string) string { return strings.ReplaceAll(x, "RECV."+s.loopMarker+"[KEY]", "ELEM") })
+		}
 		good, n := true, 0
 		for _, p := range d.paths {
 			mi, ii := -1, -1
@@ -528,7 +543,7 @@ func ruleMergeOrder(c *Ctx, r *Repo, cp *packages.Package) {
 					// a nil element replaced by a fresh value that is stored back into the collection
 					if !okDst && s.dst == "" && dst == "&Config{}" {
 						nilElem, has := p.atom("ELEM == nil")
-						okDst = has && nilElem && hasStep(p, "store RECV."+s.loopMarker+"[") == 1
+						okDst = has && nilElem && (hasStep(p, "store RECV."+s.loopMarker+"[") == 1 || hasStep(p, "store ELEM = ") == 1)
 					}
 					if src != s.src || !okDst {
 						good = false
